@@ -279,6 +279,33 @@ def check_handlers(ctx):
                 outs = {c01.outcome_class(ctx, en, lambda fr: f.module, p)
                         for p in mine}
                 ok = outs == {'false'}
+                if not ok and f is not pr and mine and all(
+                        p.outcome.kind == 'return' for p in mine):
+                    # a helper that reports the failure to its caller (None,
+                    # a sentinel): judged where the caller turns it into a
+                    # check
+                    from ..dte import inline_helpers
+                    callers = [g for g in region.values()
+                               if g is not f and any(
+                                   isinstance(c, ast.Call)
+                                   and prog.callee_of(g, c) is f
+                                   for c in ast.walk(g.node))]
+                    outs2 = set()
+                    for g in callers:
+                        en2 = Enumerator(
+                            prog, g, handler_paths=True, max_depth=3,
+                            inline=(lambda call, frame, _f=f:
+                                    _f if prog.callee_of(frame, call) is _f
+                                    else None))
+                        for p in en2.run():
+                            if any(c.kind == 'exc' and isinstance(
+                                    c.expr, ast.Constant) and tag in str(
+                                        c.expr.value) and c.line == h.lineno
+                                   for c in p.conds):
+                                outs2.add(c01.outcome_class(
+                                    ctx, en2, lambda fr, _g=g: _g.module, p))
+                    if callers and outs2 == {'false'}:
+                        ok = True
                 ctx.ob('C02.HANDLERS', ok, ctx.where(f.module, h), f.qual,
                        'except %s' % (U(h.type) if h.type is not None
                                       else ''),
